@@ -107,6 +107,14 @@ def gen_seqeq(rng):
         for _ in range(rng.randint(2, 7)):
             ops.append([r, rng.choice(['set', 'set', 'meta', 'item']), rng.randint(1, 2), rng.choice(pool)])
         ops.append([r, 'save'])
+        if rng.random() < 0.35:
+            # the recording is aborted somewhere on the way (a discard racing the end of the recording scope), perhaps twice, and
+            # handed to save all the same; writes may follow the save
+            mine = [i for i, o in enumerate(ops) if o[0] == r]
+            for _ in range(rng.choice([1, 1, 2])):
+                ops.insert(rng.choice(mine + [len(ops)]), [r, 'abort'])
+            if rng.random() < 0.3:
+                ops.append([r, 'set', 1, pool[0]])
     return {'kind': 'seqeq', 'model': False, 'ops': ops, 'failing': rng.random() < 0.25}
 
 
@@ -136,27 +144,35 @@ def run_seqeq(case):
 
     def play(cassette, close):
         recs = {}
+        seen = []
         for op in case['ops']:
             r = op[0]
             if r not in recs:
                 recs[r] = cassette.create_new_recording('Cat')
-            if op[1] == 'item':
-                # item assignment (what the recorder itself uses), under keys that need not be text
-                recs[r][[5, (1, 2), b'kb', 'plain'][(op[2] + op[3]) % 4]] = EQ_POOL[op[3]]
-            elif op[1] == 'set':
-                recs[r].set_data('k%d' % op[2], EQ_POOL[op[3]])
-            elif op[1] == 'meta':
-                recs[r].add_metadata({'m%d' % op[2]: EQ_POOL[op[3]]})
-            else:
-                cassette.save_recording(recs[r])
+            try:
+                if op[1] == 'item':
+                    # item assignment (what the recorder itself uses), under keys that need not be text
+                    recs[r][[5, (1, 2), b'kb', 'plain'][(op[2] + op[3]) % 4]] = EQ_POOL[op[3]]
+                elif op[1] == 'set':
+                    recs[r].set_data('k%d' % op[2], EQ_POOL[op[3]])
+                elif op[1] == 'meta':
+                    recs[r].add_metadata({'m%d' % op[2]: EQ_POOL[op[3]]})
+                elif op[1] == 'abort':
+                    cassette.abort_recording(recs[r])
+                else:
+                    cassette.save_recording(recs[r])
+                seen.append('ok')
+            except Exception as ex:       # (a write to a finalised recording is rejected: the caller sees the same either way)
+                seen.append(type(ex).__name__)
         close()
+        return seen
     sync = InMemoryTapeCassette()
-    play(sync, lambda: None)
+    sync_seen = play(sync, lambda: None)
     inner = InMemoryTapeCassette()
     wrapper = AsyncRecordOnlyTapeCassette(inner, flush_interval=case.get('flush_interval', 0.001), timeout_on_close=60)
     wrapper.start()
-    play(wrapper, wrapper.close)
-    return {'async': dump(inner), 'sync': dump(sync)}
+    async_seen = play(wrapper, wrapper.close)
+    return {'async': dump(inner), 'sync': dump(sync), 'async_seen': async_seen, 'sync_seen': sync_seen}
 
 
 class Injected(Exception):
@@ -667,7 +683,7 @@ class C12(Prop):
             'every position of one workload, and random workloads (1-3 producers x 1-3 recordings x 0-4 writes + metadata + '
             'save, failing wrapped calls, close by a joiner or by a producer at any point, optionally one blocking wrapped '
             'call) under random schedules at line and byte-code granularity. Sequential part (one caller, no schedule, not modelled): '
-            'writes of equal-but-different values (1 / True / 1.0, 0 / False, 2 / 2.0, equal strings) under one key / metadata name, and '
+            'writes of equal-but-different values (1 / True / 1.0, 0 / False, 2 / 2.0, equal strings) under one key / metadata name - a third of them with the recording aborted once or twice on the way and handed to save all the same, writes after the save -, and '
             'bursts of 1001 - 12289 writes while the flusher sleeps, compared with recording directly down to the type of every value. '
             'A case is non-trivial when at least one call '
             'reached the wrapped cassette and the scheduler had at least one real choice; distinct = distinct canonical case')
@@ -823,8 +839,11 @@ class C12(Prop):
                     return ['a burst of %d writes by one caller, then save and close: the wrapper left %d recordings holding %d '
                             'data keys, recording directly leaves %d holding %d'
                             % (case['burst'], len(impl['async']), na, len(impl['sync']), sum(len(r['data']) for r in impl['sync']))]
-                return ['one caller, writes of equal-but-different values: recording through the wrapper stored %r, recording '
-                        'directly stores %r' % (impl['async'], impl['sync'])]
+                return ['one caller, requests %r: recording through the wrapper stored %r, recording '
+                        'directly stores %r' % ([o[1] for o in case['ops']], impl['async'], impl['sync'])]
+            if impl.get('async_seen') != impl.get('sync_seen'):
+                return ['one caller, requests %r: through the wrapper the caller saw %r, recording directly %r'
+                        % ([o[1] for o in case['ops']], impl.get('async_seen'), impl.get('sync_seen'))]
             return []
         f = []
         progs = case['programs']
@@ -916,7 +935,7 @@ class C12(Prop):
 
     def features(self, case, impl):
         if case.get('kind') == 'seqeq':
-            return ['sequential:burst'] if case.get('burst') else ['sequential:equal-but-different-values']
+            return ['sequential:burst'] if case.get('burst') else ['sequential:equal-but-different-values'] + (['sequential:abort-then-save'] if any(o[1] == 'abort' for o in case['ops']) else [])
         out = ['producers:%d' % len(case['programs']), 'granularity:' + case.get('gran', 'line'),
                'closer:' + ('join' if case.get('closer', 'join') == 'join' else 'producer'),
                'schedule:' + ('enumerated<=%d' % case['enum']['k'] if 'enum' in case else case['sched']['kind']),
